@@ -432,11 +432,17 @@ def run(chk, tier):
     cc_adt = F.adts.get("rscel::compiler::compiler::CelCompiler")
     nest_idx = None
     if cc_adt:
-        for n_, f_ in enumerate(cc_adt["variants"][0]["fields"]):
-            if f_["name"] == "nesting":
-                nest_idx = n_
+        # the depth counter is the field of the parser that the guard (enter_nested) writes - whatever it is called
+        en_b = F.body(GUARD_PRIMS[0])
+        written = set()
+        for i_, st_ in en_b.stmts():
+            pl_ = st_.get("place", {})
+            if st_.get("k") == "assign" and pl_.get("l") == 1 and pl_.get("p") and pl_["p"][0] == "deref" and len(pl_["p"]) == 2 and isinstance(pl_["p"][1], dict) and "f" in pl_["p"][1]:
+                written.add(pl_["p"][1]["f"])
+        if len(written) == 1:
+            nest_idx = written.pop()
     if nest_idx is None:
-        chk.bad("R01.6", "anchor|CelCompiler.nesting", "the parser no longer has a `nesting` field: the depth guard's state is gone", "rscel/src/compiler/compiler.rs")
+        chk.bad("R01.6", "anchor|CelCompiler.nesting", "the guard (enter_nested) no longer keeps its count in exactly one field of the parser: the depth guard's state is gone", "rscel/src/compiler/compiler.rs")
     n_created = 0
     parser_bodies = [b for b in F.bodies.values() if b.path.startswith("rscel::compiler::compiler::CelCompiler::<'l>::parse_") or "::CelCompiler::<'l>::parse_" in b.path]
     for b in parser_bodies:
